@@ -106,13 +106,13 @@ func (t *gatedTransport) RoundTrip(req *http.Request) (*http.Response, error) {
 // ---------------------------------------------------------------------------
 
 type Case struct {
-	Hosts     int        `json:"hosts"`
-	MaxConns  int        `json:"max_conns"`
-	MaxFails  int        `json:"max_fails"`
-	Policy    string     `json:"policy"`
-	Retry     bool       `json:"retry"` // try_duration set: failed attempts are retried
-	Plans     [][]string `json:"plans"` // per request: outcome of each attempt
-	Schedule  []int      `json:"schedule"`
+	Hosts    int        `json:"hosts"`
+	MaxConns int        `json:"max_conns"`
+	MaxFails int        `json:"max_fails"`
+	Policy   string     `json:"policy"`
+	Retry    bool       `json:"retry"` // try_duration set: failed attempts are retried
+	Plans    [][]string `json:"plans"` // per request: outcome of each attempt
+	Schedule []int      `json:"schedule"`
 }
 
 func build(c *Case) (proxy.Upstream, proxy.HostPool, error) {
